@@ -395,11 +395,11 @@ class SparseMLPMMD(SparseMLPModel):
     >>> X,y=load_iris(return_X_y=True)
     >>> clf = SparseMLPMMD(random_state=0).fit(X)
     >>> clf.predict(X[:2,:])
-    array([0, 0])
+    array([2, 2])
     >>> clf.predict_proba(X[:2,:]).shape
     (2, 3)
     >>> clf.score(X)
-    1.7664211836
+    1.7670896815
     """
     _parameter_constraints: dict = {
         **SparseMLPModel._parameter_constraints,
